@@ -2,7 +2,7 @@
 from engine.facts import AnalysisBroken, atomic_op, atomic_ops, is_full_fence, has_acquire, has_release, SEQ_CST, RELAXED
 from engine.rules import (calls, calls_named, atomics_on, every_path_passes, last_member, oname, is_call_to, Defs,
                           resolve_cond_source, edges_where, dominated_by_edges, lockset, member_accesses, full_fence_pred,
-                          access_kind, root_of)
+                          access_kind, root_of, product_walk_from, bool_vars_tracker)
 from rules.common import TBB_SRC
 
 UNITS = ['src/tbb/arena.cpp', 'src/tbb/task.cpp', 'src/tbb/task_dispatcher.cpp', 'src/tbb/concurrent_bounded_queue.cpp',
@@ -340,6 +340,7 @@ def d4_release_notify(facts, rep):
                                                   lambda q, e: is_call_to(fn, e, shortnames=('notify_bounded_queue_monitor',)))[0]
                                 for b, si in pres)
         rep.ob('D4', 'K4', fn, 'the success branch of try_pop always notifies', ok, 'success path without notification')
+    bounded_queue_skipped_tickets(facts, rep, 'D4')
     # delegated_task::finalize order
     for fn in facts.get(R1 + 'delegated_task::finalize'):
         rel = calls_named(fn, ('release',))
@@ -617,3 +618,104 @@ def bounded_queue_predicate(facts, rep, clause):
                                            'constructor, abort) or skipped by a pop is never woken' % cmpn['op'], ln=cmpn.get('ln'))
         if not found:
             raise AnalysisBroken('notify_bounded_queue_monitor: predicate functor with a comparison not found')
+
+
+def bounded_queue_skipped_tickets(facts, rep, clause):
+    """A consumer that claims a head ticket vacates that slot whatever the entry holds: an entry left invalid by a push that
+    threw is skipped and the consumer claims the next ticket.  A producer blocked on the skipped slot (head_counter <= its
+    target) has its condition satisfied by the claim, so it must be woken for the skipped ticket as well; otherwise - when
+    `capacity` consecutive entries are invalid - the consumer goes on to wait for the item of exactly that sleeping producer.
+    Rule: in the blocking pop and in the try-pop implementation reached from the bounded queue, no path leads from a
+    successful claim of a head ticket to the next claim attempt without announcing the ticket to the slots monitor (directly,
+    or through a functor parameter for which every bounded-queue call site passes a functor that does)."""
+    bq = D2 + 'concurrent_bounded_queue::'
+
+    def announces_here(f, e):
+        if not isinstance(e, int) or f.nodes[e].get('k') != 'call':
+            return False
+        if is_call_to(f, e, shortnames=('notify_bounded_queue_monitor',)):
+            a = f.nodes[e].get('a', [])
+            if len(a) > 1:
+                n = f.n(f.strip(a[1]))
+                return (n.get('n') or n.get('glob') or '') == 'cbq_slots_avail_tag'
+        return False
+
+    def functor_announces(f, e, callers):
+        """e calls a functor parameter of f; every caller in `callers` passes a lambda that announces"""
+        nd = f.nodes[e]
+        callee_obj = nd.get('obj', nd.get('fx', -1))
+        if callee_obj is None or callee_obj < 0:
+            return False
+        on = f.n(f.strip(callee_obj))
+        if on.get('k') != 'var' or 'param' not in on:
+            return False
+        idx = on['param']
+        if not callers:
+            return False
+        for g, cnode in callers:
+            args = cnode.get('a', [])
+            if idx >= len(args):
+                return False
+            lam = [facts.fns.get(g.nodes[x].get('fn')) for x in g.subtree(args[idx]) if g.nodes[x].get('k') == 'lambda']
+            lam = [x for x in lam if x is not None]
+            if not lam or not all(every_path_passes(h, 'entry', lambda p, el, h=h: announces_here(h, el))[0] for h in lam):
+                return False
+        return True
+
+    targets = []          # (function, [(caller fn, call node)])
+    for fn in facts.get(bq + 'internal_pop'):
+        targets.append((fn, []))
+    for fn in facts.get(bq + 'internal_pop_if_present'):
+        targets.append((fn, []))
+        for pos, s, node, d in calls(fn):
+            g = facts.fns.get(node.get('fn'))
+            if g is not None and atomics_on(g, 'head_counter', kinds=('rmw', 'cas')):
+                targets.append((g, [(fn, node)]))
+    merged = {}
+    for f, cs in targets:
+        merged.setdefault(f.u, [f, []])[1].extend(cs)
+    n = 0
+    for u, (fn, callers) in sorted(merged.items()):
+        claims = atomics_on(fn, 'head_counter', kinds=('rmw', 'cas'))
+        claims = [(p, o) for p, o in claims if o['name'] not in ('operator--', 'fetch_sub')]
+        if not claims:
+            continue
+        claim_pos = set(p for p, _ in claims)
+
+        def announce(pos, e, fn=fn, callers=callers):
+            if announces_here(fn, e):
+                return True
+            if isinstance(e, int) and fn.nodes[e].get('k') == 'call' and fn.nodes[e].get('op') == '()':
+                return functor_announces(fn, e, callers)
+            return False
+        for cp, co in claims:
+            starts = []
+            if co['kind'] == 'cas':
+                # the claim succeeded on the edges where the compare-exchange is known to be true
+                for (b, si) in edges_where(fn, lambda a, truth, co=co: truth and fn.strip(a) == co['s']):
+                    starts.append((fn.blocks[b]['succ'][si], -1))
+            else:
+                starts.append(cp)
+            bad = None
+            # path-sensitive in the local flags (`popped`): `if (!popped) announce(); ... while (!popped)` has no feasible
+            # path from the claim back to the loop head that misses the announcement
+            on_elem, on_edge = bool_vars_tracker(fn)
+
+            def elem_tr(state, pos, e):
+                if announce(pos, e):
+                    return None                    # announced: this path is fine, stop exploring it
+                return on_elem(state, e)
+            for st in starts:
+                visits, exits = product_walk_from(fn, st, (), elem_tr, on_edge)
+                hit = sorted(set(q for q, _ in visits if q in claim_pos))
+                if hit:
+                    bad = 'claim at line %s reached again from the claim at line %s' % (
+                        fn.nodes[fn.elems(hit[0][0])[hit[0][1]]].get('ln'), co['ln'])
+            n += 1
+            rep.ob(clause, 'K3', fn, 'a claimed head ticket is announced to the producers before the next ticket is claimed (line %s)' % co['ln'],
+                   bad is None and bool(starts),
+                   'when the claimed entry is invalid (left by a push that threw) the consumer goes on to the next ticket without waking the '
+                   'producer that waits for the vacated slot: with `capacity` consecutive invalid entries producer and consumer wait for each '
+                   'other forever (path: %s)' % bad, ln=co['ln'], key_extra='skip|%s|%s' % (fn.p, co['ln']))
+    if n < 2:
+        raise AnalysisBroken('bounded queue: head ticket claims not found (%d)' % n)
